@@ -69,6 +69,9 @@ _pristine = None
 _SETUP_DONE = []
 
 
+RULE = RULE + ' Round 16: the SAME mapping object of an earlier update_defaults call is passed again.'
+
+
 def setup():
     if _SETUP_DONE:
         return
